@@ -19,12 +19,18 @@ def _mk(side, spec):
     return Order(0, 0, side, MARKET_ORDER if kind == 0 else LIMIT_ORDER, 1, placed_at=placed, price=price, order_id=oid)
 
 
+PRICES = (99.0, 100.0, 101.0)
+# adjacent ticks of a fine grid at a high price level (tick 1e-5 at 30000: 3e-10 relative apart), and adjacent floats
+CLOSE_PRICES = (30000.0, 30000.00001, 30000.00002, 100.0, 100.00000000000001)
+_DOMAIN_PRICES = PRICES
+
+
 def domain():
     out = []
     for oid in range(4):
         for placed in range(3):
             out.append((0, None, placed, oid))
-            for price in (99.0, 100.0, 101.0):
+            for price in _DOMAIN_PRICES:
                 out.append((1, price, placed, oid))
     return out
 
@@ -40,8 +46,12 @@ def comparator_fn(case, wit):
     """all pairs and triples (first element fixed by the case) of accepted same-side orders"""
     from ..common import Violation
     from ..explore_m import K
-    side, i = case
+    global _DOMAIN_PRICES
+    which, side, i = case
+    _DOMAIN_PRICES = PRICES if which == "grid" else CLOSE_PRICES
     dom = domain()
+    if which == "close":
+        wit.inc("domain_close_prices")
     a_s = dom[i]
     a = _mk(side, a_s)
     if not (not (a < a) and not (a > a) and a == a and a <= a and a >= a and not (a != a)):
@@ -66,17 +76,22 @@ def comparator_fn(case, wit):
             if (a < b and b < c and not a < c) or (c < b and b < a and not c < a) or (b < a and a < c and not b < c):
                 raise Violation("C02.transitivity", "order comparison is not transitive", "%r %r %r" % (a_s, dom[j], dom[k]))
             wit.inc("domain_triples")
-    return (side, a_s[0], a_s[1])
+    return (which, side, a_s[0], a_s[1])
 
 
 def run(tier, seed):
     res = run_generic("C02", tier, seed, factory, WIT, RULE)
     from ..enum_f import run_grid
     ev0, dn0 = res.coverage["evaluations"], res.coverage["distinct_nontrivial"]
-    run_grid(res, "comparator_domain", [(s, i) for s in (True, False) for i in range(len(domain()))], comparator_fn, seed)
+    global _DOMAIN_PRICES
+    cases = []
+    for which, prices in (("grid", PRICES), ("close", CLOSE_PRICES)):
+        _DOMAIN_PRICES = prices
+        cases += [(which, s, i) for s in (True, False) for i in range(len(domain()))]
+    run_grid(res, "comparator_domain", cases, comparator_fn, seed)
     res.coverage["evaluations"] = ev0 + res.coverage["witness_classes"].get("domain_pairs", 0) + res.coverage["witness_classes"].get("domain_triples", 0)
     res.coverage["distinct_nontrivial"] = dn0
-    res.require_witness(["domain_pairs", "domain_triples"])
+    res.require_witness(["domain_pairs", "domain_triples", "domain_close_prices"])
     return res
 
 
